@@ -1,9 +1,9 @@
 import WM.Proto
+import WM.Drv.C11
 namespace WM.Drv.C12
 open WM.Proto
 
-/-- Protocol handler of family `c12` (requests arrive without the family token). -/
-def handle : List SExp → String
-  | _ => "bad-op"
+/-- Protocol handler of family `c12`: the matcher protocol of `c11` (same trees, same programs). -/
+def handle (args : List SExp) : String := WM.Drv.C11.handle args
 
 end WM.Drv.C12
